@@ -810,8 +810,9 @@ def numeric_family():
 
 
 class OddStr(str):
-    """a str all of whose instances hash alike and compare equal to anything: a table or memo keyed on the CALLER'S
-    object (instead of on its text) confuses two of them.  str(x), iteration, slicing, .encode() are untouched."""
+    """a str all of whose instances hash alike and compare equal to anything.  Used in EARLIER calls of a history only
+    (an object that lies about equality is not a text: nothing is demanded of a call that is handed one, and a memo
+    keyed on it may well confuse two of them) - what such calls leave behind must not reach a later call on a real str."""
     __slots__ = ()
 
     def __hash__(self):
@@ -1445,7 +1446,7 @@ class C06(Property):
                    'case': {'k': 'u', 't': t}}
             t = e + salt()
             yield {'k': 'h', 'pre': [['unquote', [t], {'_odd': 1}], ['unquote', ['other' + t], {'_odd': 1, 'encoding': 'latin-1'}]],
-                   'case': {'k': 'u', 't': t, 'odd': 1}}
+                   'case': {'k': 'u', 't': t}}
         # (2) component round trips: the quoters with the other mode / the other component's function on the same text,
         #     the escaped piece decoded with another codec, a twin object rendered the other way - before the judged object
         for comp in COMPONENTS:
@@ -1464,7 +1465,7 @@ class C06(Property):
                 yield {'k': 'h', 'pre': pre[::-1], 'case': dict(c, via='attrs')}
                 yield {'k': 'h', 'pre': pre[8:9] + [['quote_' + qf, [text], {'_odd': 1}]], 'case': {'k': 'q', 'c': qf, 't': text}}
                 yield {'k': 'h', 'pre': [['quote_' + qf, ['x' + text, False], {'_odd': 1}], ['quote_' + qf, ['y' + text], {'_odd': 1, 'full_quote': True}]],
-                       'case': {'k': 'q', 'c': qf, 't': text, 'odd': 1}}
+                       'case': {'k': 'q', 'c': qf, 't': text}}
         # (3) every public function with every keyword it has, failing calls included, before each kind of judged call
         for inner in ({'k': 'u', 't': '%E9%41'}, {'k': 'q', 'c': 'p', 't': '\xe9/ %'}, {'k': 'q', 'c': 'q', 't': '&=+;\xe9'},
                       {'k': 'p', 't': 'http://u%E9:p@Host.example:81/a/../%E9;x?k=%E9&k=2&e=#f%E9'}, {'k': 'p', 't': 'http://[::1'},
